@@ -55,10 +55,10 @@ fn case<R: KhRing>(ctx: &mut Ctx, rng: &mut Rng) where for<'x> &'x R: EucRingOps
     let nthreads = *rng.choose(&[1usize, 4, 16]);
     let (la, lb) = (to_link(&p.a), to_link(&p.b));
     let pool = &pools()[&nthreads];
-    // the moved diagram is built divide-and-conquer (two halves glued by TngComplex::connect) one time in three,
+    // the moved diagram is built divide-and-conquer (two halves glued by TngComplex::connect) one time in six (diagrams up to 9 crossings),
     // so that invariance is also exercised across ways of grouping the crossings
     let nb = p.b.n();
-    let split_b = if nb >= 2 && rng.chance(1, 3) { Some(rng.urange(1, nb - 1)) } else { None };
+    let split_b = if nb >= 2 && nb <= 9 && rng.chance(1, 6) { Some(rng.urange(1, nb - 1)) } else { None };
     let conf = json!({"ring": rname, "origin": p.origin, "moves": p.log, "reduced": reduced, "threads": nthreads, "moved_diagram_built_in_two_halves_split_at": split_b});
     let wit = |extra: serde_json::Value| json!({"config": conf, "pd": p.a.x, "moved_pd": p.b.x, "detail": extra});
     let res = guarded(move || pool.install(move || {
